@@ -507,6 +507,28 @@ pub fn run(out: &mut Out, tier: &str, seed: u64, prop: &str) {
                     }
                     if want { out.stat("c02.true_results"); } else { out.stat("c02.false_results"); }
                 }
+                // related operands after related work: x = a and b implies a; `and` first, then `or` on the same
+                // ordered pair (and on the negations, and in the other order) — whatever was combined before
+                if i % 3 == 0 {
+                    let xt = Term::and(a.term.clone(), b.term.clone());
+                    let Some(xtree) = try_build(out, "C02", &xt) else { return };
+                    let x = Item { term: xt, dump: dump(&xtree), tree: xtree };
+                    let nx = Item { term: Term::not(x.term.clone()), dump: dump(&x.tree.negate()), tree: x.tree.negate() };
+                    let na = Item { term: Term::not(a.term.clone()), dump: dump(&a.tree.negate()), tree: a.tree.negate() };
+                    let steps: [(&Item, &Item, OpK); 6] = [(&x, a, OpK::And), (&x, a, OpK::Or), (a, &x, OpK::Or), (&nx, &na, OpK::Or), (&na, &nx, OpK::And), (&nx, &na, OpK::And)];
+                    let envs2 = region_envs(&mut rng, &[&a.term, &b.term], 6);
+                    for (l, r, k) in steps {
+                        let Some(m2) = op_case(out, "C02", &k, l, Some(r)) else { return };
+                        out.stat("c02.related_history_steps");
+                        for e in &envs2 {
+                            let (vl, vr) = (e.eval(&l.tree), e.eval(&r.tree));
+                            let want = if matches!(k, OpK::And) { vl && vr } else { vl || vr };
+                            if e.eval(&m2) != want {
+                                out.oracle_fail("C02", &format!("{:?} is not pointwise after related operations on the same operands: operands evaluate to {vl}/{vr}, result to {}", k, !want), serde_json::json!({"a": l.term.line(), "b": r.term.line(), "env": e.line(), "history": "x = a and b; x and a; x or a; a or x; not x or not a; not a and not x; not x and not a"}));
+                            }
+                        }
+                    }
+                }
                 // identities / annihilators, structurally
                 let (mut t1, mut t2, mut t3, mut t4) = (a.tree.clone(), a.tree.clone(), a.tree.clone(), a.tree.clone());
                 t1.and(MarkerTree::TRUE); t2.and(MarkerTree::FALSE); t3.or(MarkerTree::FALSE); t4.or(MarkerTree::TRUE);
